@@ -64,7 +64,7 @@ def _work(job):
         res["fails"].append(["instrument:" + type(e).__name__, str(e)[:200], None])
         return res
     # --- K1b: blocks ---------------------------------------------------------------------------
-    ex = I.extract_blocks(sp, plain)
+    ex = I.extract_blocks(sp, plain, code)
     from pynguin.instrumentation.version import common as c
 
     dead = live = 0
@@ -134,9 +134,10 @@ def _work(job):
 
 
 def _isolated_work(job):
-    r = I.isolated(_work, job, timeout=300)
+    r = I.isolated(_work, job, timeout=900)
     if "crash" in r:
-        return {"n": job[0], "cases": [], "fails": [["crash:" + r["crash"], "interpreter died", None]], "stats": {}}
+        sig = "harness:timeout" if r["crash"] == "SIGALRM" else "crash:" + r["crash"]
+        return {"n": job[0], "cases": [], "fails": [[sig, "interpreter died", None]], "stats": {}}
     if "harness_error" in r:
         return {"n": job[0], "cases": [], "fails": [["harness:" + r["harness_error"].split(":")[0], r["harness_error"] + r.get("tb", ""), None]], "stats": {}}
     return r
@@ -150,7 +151,7 @@ def run(ctx: vlib.Ctx):
         ctx.coqchk()
     scratch = ctx.mkscratch()
     corpus = json.loads((vlib.VERIF / "corpus" / "C02.json").read_text())
-    n_prog = 40 if ctx.quick else 1200
+    n_prog = 40 if ctx.quick else 400
     n_inp = 3 if ctx.quick else 5
     progs = [(c["src"], c.get("specs") or []) for c in corpus]
     for s in G.SEED_PROGRAMS:
@@ -185,6 +186,9 @@ def run(ctx: vlib.Ctx):
         for k, v in r["stats"].items():
             ctx.count("S:" + k, v)
         for sig, msg, k in r["fails"]:
+            if sig == "harness:timeout":
+                ctx.count("S:timeout-not-judged")
+                continue
             n_or += 1
             if sig in seen:
                 continue
